@@ -10,6 +10,7 @@
 //           variant in which the SetPointerPlugin itself is installed from inside a test of the run.
 // Oracle:  (a) array model of the targets; (b) list model; (c) list model + per-test snapshot, see part (c).  ASan guards the 32-entry table (a global with redzones).
 #include "common.h"
+#include "CppUTest/CommandLineTestRunner.h"
 #include <stdexcept>
 
 using verif::Reader;
@@ -24,6 +25,27 @@ struct CaptureOutput : TestOutput {
 };
 
 const char* KEY_REMOVE = "C17:removePluginByName-beyond-second-position";
+const char* KEY_SEVERAL = "C17:removePluginByName-removes-several-carriers";
+// plugin names: unique ("P0".."P6") or drawn from a small pool so that different plugin objects share a name
+// (one pool member is the name of the built-in SetPointerPlugin)
+const int NPLUG = 7;
+std::vector<std::string> gen_names(Reader& r, bool dup, std::string& desc) {
+    std::vector<std::string> n;
+    static const char* POOL[] = {"Logger", "SetPointerPlugin", "Other", "MemoryLeakPlugin"};
+    if (!dup) { for (int i = 0; i < NPLUG; i++) n.push_back(sfmt("P%d", i)); return n; }
+    uint32_t pool = 2 + r.below(3);
+    desc += "names:";
+    for (int i = 0; i < NPLUG; i++) { n.push_back(POOL[r.below(pool)]); desc += sfmt(" P%d=%s", i, n.back().c_str()); }
+    desc += "; ";
+    return n;
+}
+// `now` must be `old` with exactly one element removed, and that element must carry `name`; returns its id, -1 otherwise
+int one_carrier_left(const std::vector<int>& old, const std::vector<int>& now, const std::vector<std::string>& names, const std::string& name) {
+    if (now.size() + 1 != old.size()) return -1;
+    size_t i = 0; while (i < now.size() && old[i] == now[i]) i++;
+    for (size_t j = i; j < now.size(); j++) if (old[j + 1] != now[j]) return -1;
+    return names[(size_t)old[i]] == name ? old[i] : -1;
+}
 
 // =================================================================================================================
 // part (a)
@@ -79,7 +101,13 @@ public:
     void preTestAction(UtestShell&, TestResult& r) CPPUTEST_OVERRIDE { pre.push_back(take(r)); }
     void postTestAction(UtestShell&, TestResult& r) CPPUTEST_OVERRIDE { post.push_back(take(r)); }
 };
-class QuietPlugin : public TestPlugin { public: explicit QuietPlugin(const char* n) : TestPlugin(n) {} };
+class QuietPlugin : public TestPlugin {
+public:
+    int pre = 0, post = 0;
+    explicit QuietPlugin(const char* n) : TestPlugin(n) {}
+    void preTestAction(UtestShell&, TestResult&) CPPUTEST_OVERRIDE { pre++; }
+    void postTestAction(UtestShell&, TestResult&) CPPUTEST_OVERRIDE { post++; }
+};
 
 const char* outcome_name(int o) { static const char* n[] = {"pass", "FAIL", "throw-int", "throw-std"}; return n[o]; }
 const char* phase_name(int p) { static const char* n[] = {"setup", "body", "teardown"}; return n[p]; }
@@ -110,55 +138,11 @@ Phase gen_phase(Reader& r, std::string& desc, int& last_target) {
     return p;
 }
 
-int run_a(Reader& r, bool& nontrivial, std::string& desc) {
-    int ntests = 1 + (int)r.below(4);
-    bool extra_before = r.flag(), extra_between = r.flag();
-    std::vector<TestScript> scripts((size_t)ntests);
-    int last_target = 0;
-    for (int t = 0; t < ntests; t++) {
-        desc += sfmt("T%d{", t);
-        for (int p = 0; p < 3; p++) { desc += sfmt("%s: ", phase_name(p)); scripts[(size_t)t].ph[p] = gen_phase(r, desc, last_target); }
-        desc += "} ";
-    }
-    // lazy mode: the SetPointerPlugin is installed during the run, at the end of a phase of test L; up to and including that
-    // test nothing is redirected (only plain writes) and every phase passes, so "restored after the test" is only claimed for
-    // tests that start with the plugin installed.  The plugin is then the newest one: its post action runs after the observer's,
-    // so those tests are judged by the observer's next pre sample / the state after the run.
-    int lazy_test = -1;
-    if (ntests >= 2 && r.below(3) == 2) {
-        lazy_test = (int)r.below((uint32_t)ntests - 1);
-        int lazy_phase = (int)r.below(3);
-        for (int t = 0; t <= lazy_test; t++) for (int p = 0; p < 3; p++) {
-            Phase& ph = scripts[(size_t)t].ph[p];
-            ph.outcome = O_PASS;
-            for (Step& st : ph.steps) { st.kind = S_PLAIN; st.count = 1; }
-        }
-        scripts[(size_t)lazy_test].ph[lazy_phase].steps.push_back(Step{S_INSTALL_SETP, 0, 0, 1, 0});
-        desc += sfmt("[lazy: tests 0..%d only write; SetPointerPlugin installed in %s of T%d] ", lazy_test, phase_name(lazy_phase), lazy_test);
-        verif::cls("a:lazy-set-pointer-plugin");
-        nontrivial = true;
-    }
-    if (verif::g_explain) fprintf(stderr, "part a: %s\n", desc.c_str());
-
-    // ---- reset the global state the case touches
-    for (int i = 0; i < NT; i++) g_target[i] = base_val(i);
-    UtestShell::setRethrowExceptions(false);
-    SetPointerPlugin setp("SetPointerPlugin");      // the constructor empties the process-wide table
-    QuietPlugin q1("quiet1"), q2("quiet2");
-    Observer obs;
-    TestRegistry reg;
-    if (extra_before) reg.installPlugin(&q1);
-    g_a_reg = &reg; g_a_setp = &setp;
-    if (lazy_test < 0) reg.installPlugin(&setp);
-    if (extra_between) reg.installPlugin(&q2);
-    reg.installPlugin(&obs);                          // last installed: first pre action, last post action
-    std::vector<ScriptShell> shells((size_t)ntests);
-    for (int t = ntests - 1; t >= 0; t--) { shells[(size_t)t].s_ = &scripts[(size_t)t]; reg.addTest(&shells[(size_t)t]); }   // addTest prepends
-    CaptureOutput out;
-    TestResult res(out);
-    reg.runAllTests(res);
-
-    // ---- model
+// array model of the targets + verdict for a run of scripted tests.  Tests with index >= by_next_from are judged by the
+// observer's NEXT pre sample / the state after the run (the restoring plugin is newer than the observer), the others by
+// the observer's own post sample.
+int judge_targets(const std::vector<TestScript>& scripts, const Observer& obs, int by_next_from, size_t final_failures, const std::string& outtext, bool& nontrivial) {
+    int ntests = (int)scripts.size();
     void* cur[NT];
     for (int i = 0; i < NT; i++) cur[i] = base_val(i);
     V_CHECK(obs.pre.size() == (size_t)ntests && obs.post.size() == (size_t)ntests, "C17:observer-not-called", "observer saw %zu pre / %zu post actions for %d tests", obs.pre.size(), obs.post.size(), ntests);
@@ -198,8 +182,8 @@ int run_a(Reader& r, bool& nontrivial, std::string& desc) {
         verif::cls(filled == 0 ? "a:redirections:0" : filled < 8 ? "a:redirections:1-7" : filled < 32 ? "a:redirections:8-31" : "a:redirections:32");
 
         Sample final_state;
-        if (lazy_test >= 0 && t >= lazy_test && t + 1 >= ntests) { for (int i = 0; i < NT; i++) final_state.v[i] = g_target[i]; final_state.failures = res.getFailureCount(); }
-        const Sample& after = (lazy_test >= 0 && t >= lazy_test) ? (t + 1 < ntests ? obs.pre[(size_t)t + 1] : final_state) : obs.post[(size_t)t];
+        if (t >= by_next_from && t + 1 >= ntests) { for (int i = 0; i < NT; i++) final_state.v[i] = g_target[i]; final_state.failures = final_failures; }
+        const Sample& after = (t >= by_next_from) ? (t + 1 < ntests ? obs.pre[(size_t)t + 1] : final_state) : obs.post[(size_t)t];
         for (int i = 0; i < NT; i++) {
             if (after.v[i] == cur[i]) continue;
             if (redirected[i]) return verif::fail("C17:redirected-target-not-restored", "test %d redirected target %d %d time(s); after the post actions it is %p, before its first redirection it was %p (%d table entries%s)",
@@ -208,13 +192,74 @@ int run_a(Reader& r, bool& nontrivial, std::string& desc) {
         }
         size_t delta = after.failures - failures_before;
         failures_before = after.failures;
-        if (overflow) V_CHECK(delta >= 1 && out.text.find("Maximum number of function pointers installed!") != std::string::npos, "C17:limit-exceeded-without-failure",
+        if (overflow) V_CHECK(delta >= 1 && outtext.find("Maximum number of function pointers installed!") != std::string::npos, "C17:limit-exceeded-without-failure",
                               "test %d made a 33rd redirection but recorded %zu failure(s) / no limit message", t, delta);
-        if (failures == 0) V_CHECK(delta == 0, "C17:spurious-failure", "test %d stays within the limit and passes all phases but recorded %zu failure(s): %s", t, delta, verif::printable(out.text).substr(0, 400).c_str());
+        if (failures == 0) V_CHECK(delta == 0, "C17:spurious-failure", "test %d stays within the limit and passes all phases but recorded %zu failure(s): %s", t, delta, verif::printable(outtext).substr(0, 400).c_str());
         else V_CHECK(delta >= 1, "C17:failure-lost", "test %d fails in the model but recorded no failure", t);
     }
     for (int i = 0; i < NT; i++) V_CHECK(g_target[i] == cur[i], "C17:target-changed-after-run", "target %d changed after the last post action", i);
     return 0;
+}
+
+int run_a(Reader& r, bool& nontrivial, std::string& desc, bool dup) {
+    int ntests = 1 + (int)r.below(4);
+    bool extra_before = r.flag(), extra_between = r.flag();
+    std::vector<TestScript> scripts((size_t)ntests);
+    int last_target = 0;
+    for (int t = 0; t < ntests; t++) {
+        desc += sfmt("T%d{", t);
+        for (int p = 0; p < 3; p++) { desc += sfmt("%s: ", phase_name(p)); scripts[(size_t)t].ph[p] = gen_phase(r, desc, last_target); }
+        desc += "} ";
+    }
+    // lazy mode: the SetPointerPlugin is installed during the run, at the end of a phase of test L; up to and including that
+    // test nothing is redirected (only plain writes) and every phase passes, so "restored after the test" is only claimed for
+    // tests that start with the plugin installed.  The plugin is then the newest one: its post action runs after the observer's,
+    // so those tests are judged by the observer's next pre sample / the state after the run.
+    int lazy_test = -1;
+    if (ntests >= 2 && r.below(3) == 2) {
+        lazy_test = (int)r.below((uint32_t)ntests - 1);
+        int lazy_phase = (int)r.below(3);
+        for (int t = 0; t <= lazy_test; t++) for (int p = 0; p < 3; p++) {
+            Phase& ph = scripts[(size_t)t].ph[p];
+            ph.outcome = O_PASS;
+            for (Step& st : ph.steps) { st.kind = S_PLAIN; st.count = 1; }
+        }
+        scripts[(size_t)lazy_test].ph[lazy_phase].steps.push_back(Step{S_INSTALL_SETP, 0, 0, 1, 0});
+        desc += sfmt("[lazy: tests 0..%d only write; SetPointerPlugin installed in %s of T%d] ", lazy_test, phase_name(lazy_phase), lazy_test);
+        verif::cls("a:lazy-set-pointer-plugin");
+        nontrivial = true;
+    }
+    if (verif::g_explain) fprintf(stderr, "part a: %s\n", desc.c_str());
+
+    // ---- reset the global state the case touches
+    for (int i = 0; i < NT; i++) g_target[i] = base_val(i);
+    UtestShell::setRethrowExceptions(false);
+    SetPointerPlugin setp("SetPointerPlugin");      // the constructor empties the process-wide table
+    // neighbours of the SetPointerPlugin; with shared names one of them may carry the built-in plugin's own name
+    const char* n1 = "quiet1"; const char* n2 = "quiet2";
+    if (dup) { n1 = r.pick((const char* const[]){"SetPointerPlugin", "quiet1", "twin"}); n2 = r.pick((const char* const[]){"SetPointerPlugin", "twin", "quiet2"});
+               desc += sfmt("[neighbours named \"%s\" (before) and \"%s\" (after)] ", n1, n2); }
+    QuietPlugin q1(n1), q2(n2);
+    Observer obs;
+    TestRegistry reg;
+    if (extra_before) reg.installPlugin(&q1);
+    g_a_reg = &reg; g_a_setp = &setp;
+    if (lazy_test < 0) reg.installPlugin(&setp);
+    if (extra_between) reg.installPlugin(&q2);
+    reg.installPlugin(&obs);                          // last installed: first pre action, last post action
+    std::vector<ScriptShell> shells((size_t)ntests);
+    for (int t = ntests - 1; t >= 0; t--) { shells[(size_t)t].s_ = &scripts[(size_t)t]; reg.addTest(&shells[(size_t)t]); }   // addTest prepends
+    CaptureOutput out;
+    TestResult res(out);
+    reg.runAllTests(res);
+    {
+        int installed = (extra_before ? 1 : 0) + (extra_between ? 1 : 0) + 2;
+        V_CHECK(reg.countPlugins() == installed, "C17:countPlugins-differs", "%d plugins were installed, countPlugins() = %d", installed, reg.countPlugins());
+        if (extra_before) V_CHECK(q1.pre == ntests && q1.post == ntests, "C17:installed-plugin-missed-action", "plugin \"%s\" installed before the SetPointerPlugin saw %d pre / %d post actions in a run of %d tests", n1, q1.pre, q1.post, ntests);
+        if (extra_between) V_CHECK(q2.pre == ntests && q2.post == ntests, "C17:installed-plugin-missed-action", "plugin \"%s\" installed after the SetPointerPlugin saw %d pre / %d post actions in a run of %d tests", n2, q2.pre, q2.post, ntests);
+    }
+
+    return judge_targets(scripts, obs, lazy_test >= 0 ? lazy_test : 1000, res.getFailureCount(), out.text, nontrivial);
 }
 
 // =================================================================================================================
@@ -229,6 +274,8 @@ public:
     RecPlugin(int id, const char* name) : TestPlugin(name), id_(id) {}
     void preTestAction(UtestShell&, TestResult&) CPPUTEST_OVERRIDE { g_log->push_back(LogEntry{'<', id_}); }
     void postTestAction(UtestShell&, TestResult&) CPPUTEST_OVERRIDE { g_log->push_back(LogEntry{'>', id_}); }
+    // accepts the option "-p<own name>"
+    bool parseArguments(int, const char* const* av, int index) CPPUTEST_OVERRIDE { g_log->push_back(LogEntry{'A', id_}); return SimpleString(av[index]) == (SimpleString("-p") + getName()); }
 };
 int g_body_outcome;
 void chain_body(void*) {
@@ -245,7 +292,9 @@ struct Chains {
     std::vector<int> chain;     // head first = last installed first
     bool enabled[NP];
     std::vector<LogEntry> log;
-    Chains() { static const char* names[NP] = {"P0", "P1", "P2", "P3", "P4", "P5", "P6"}; for (int i = 0; i < NP; i++) { pl[i] = new RecPlugin(i, names[i]); enabled[i] = true; } g_log = &log; }
+    std::vector<std::string> names;
+    explicit Chains(const std::vector<std::string>& n) : names(n) { for (int i = 0; i < NP; i++) { pl[i] = new RecPlugin(i, names[(size_t)i].c_str()); enabled[i] = true; } g_log = &log; }
+    std::vector<int> carriers(const std::string& name) const { std::vector<int> v; for (int id : chain) if (names[(size_t)id] == name) v.push_back(id); return v; }
     ~Chains() { for (int i = 0; i < NP; i++) delete pl[i]; g_log = NULLPTR; }
     int pos_of(int k) const { for (size_t i = 0; i < chain.size(); i++) if (chain[i] == k) return (int)i; return -1; }
     // the chain the registry really holds (bounded walk: a corrupted chain may be cyclic)
@@ -272,8 +321,8 @@ struct Chains {
     }
 };
 
-int run_b(Reader& r, bool& nontrivial, std::string& desc) {
-    Chains c;
+int run_b(Reader& r, bool& nontrivial, std::string& desc, bool dup) {
+    Chains c(gen_names(r, dup, desc));
     UtestShell::setRethrowExceptions(false);
     int nops = 1 + (int)r.below(40);
     for (int op = 0; op < nops && !r.empty(); op++) {
@@ -295,31 +344,44 @@ int run_b(Reader& r, bool& nontrivial, std::string& desc) {
         if (kind == 4 || kind == 5) {   // remove by name: an installed plugin, a plugin that is not installed, or a name nobody has
             bool nobody = (kind == 5 && r.below(4) == 0);
             if (kind == 4 && !c.chain.empty() && c.pos_of(k) < 0) k = c.chain[(size_t)k % c.chain.size()];   // prefer an installed one
-            std::string name = nobody ? "nobody" : c.pl[k]->getName().asCharString();
+            std::string name = nobody ? "nobody" : c.names[(size_t)k];
+            std::vector<int> car = c.carriers(name);
             int pos = nobody ? -1 : c.pos_of(k);
             if (pos >= 2 && verif::known(KEY_REMOVE)) { verif::cls("b:remove-skipped-known-finding"); continue; }
-            verif::cls(pos < 0 ? "b:remove-not-installed" : pos == 0 ? "b:remove-position-1" : pos == 1 ? "b:remove-position-2" : "b:remove-position-3+");
+            if (car.size() >= 2 && verif::known(KEY_SEVERAL)) { verif::cls("b:remove-skipped-known-finding"); continue; }
+            verif::cls(car.size() >= 2 ? "b:remove-name-with-several-carriers" : car.empty() ? "b:remove-not-installed" : pos == 0 ? "b:remove-position-1" : pos == 1 ? "b:remove-position-2" : "b:remove-position-3+");
             if (c.chain.size() >= 3) { nontrivial = true; verif::cls("b:nt:removal-from-chain-of-3+"); }
             std::vector<int> old = c.chain;
-            desc += sfmt("-%s@%d ", name.c_str(), pos);
+            desc += sfmt("-%s(%zu carriers) ", name.c_str(), car.size());
             c.reg.removePluginByName(name.c_str());
-            if (pos >= 0) c.chain.erase(c.chain.begin() + pos);
             std::vector<int> a; bool ok = c.actual(a);
-            if (ok && pos >= 2 && a == old)
-                return verif::fail(KEY_REMOVE, "removePluginByName(\"%s\") removed nothing: the plugin is at position %d of %s", name.c_str(), pos + 1, render_chain(old).c_str());
-            V_CHECK(ok && a == c.chain, "C17:removePluginByName-wrong-chain", "removePluginByName(\"%s\") on %s left %s%s, expected %s", name.c_str(), render_chain(old).c_str(), render_chain(a).c_str(),
-                    ok ? "" : " (not terminated by the null plugin)", render_chain(c.chain).c_str());
+            if (car.empty()) {
+                V_CHECK(ok && a == old, "C17:removePluginByName-wrong-chain", "removePluginByName(\"%s\") (nobody in the chain has that name) on %s left %s", name.c_str(), render_chain(old).c_str(), render_chain(a).c_str());
+            } else {
+                if (ok && a == old && c.pos_of(car[0]) >= 2 && car.size() == 1)
+                    return verif::fail(KEY_REMOVE, "removePluginByName(\"%s\") removed nothing: the plugin is at position %d of %s", name.c_str(), c.pos_of(car[0]) + 1, render_chain(old).c_str());
+                // exactly ONE plugin object leaves the chain and it carries the name (with several carriers: any of them); all others stay, in order
+                int gone = ok ? one_carrier_left(old, a, c.names, name) : -1;
+                if (ok && gone < 0 && car.size() >= 2 && a.size() + 1 < old.size())
+                    return verif::fail(KEY_SEVERAL, "removePluginByName(\"%s\") on %s (%zu plugins carry that name) removed %zu plugins, left %s", name.c_str(), render_chain(old).c_str(), car.size(), old.size() - a.size(), render_chain(a).c_str());
+                V_CHECK(gone >= 0, "C17:removePluginByName-wrong-chain", "removePluginByName(\"%s\") on %s left %s%s; expected exactly one plugin named so to leave", name.c_str(), render_chain(old).c_str(), render_chain(a).c_str(),
+                        ok ? "" : " (not terminated by the null plugin)");
+                c.chain = a;
+            }
             if (int e = c.check_chain("removePluginByName")) return e;
             continue;
         }
         if (kind == 6) {   // lookup
             verif::cls("b:getPluginByName");
             bool nobody = r.below(5) == 0;
-            TestPlugin* got = c.reg.getPluginByName(nobody ? "nobody" : c.pl[k]->getName().asCharString());
-            TestPlugin* want = (!nobody && c.pos_of(k) >= 0) ? c.pl[k] : NULLPTR;
-            desc += sfmt("?P%d ", k);
-            V_CHECK(got == want, "C17:getPluginByName-differs", "getPluginByName(\"%s\") on %s returned %s", nobody ? "nobody" : c.pl[k]->getName().asCharString(), render_chain(c.chain).c_str(),
-                    got == NULLPTR ? "nothing" : got == NullTestPlugin::instance() ? "the null plugin" : "another plugin");
+            std::string name = nobody ? "nobody" : c.names[(size_t)k];
+            TestPlugin* got = c.reg.getPluginByName(name.c_str());
+            std::vector<int> car = c.carriers(name);
+            desc += sfmt("?%s ", name.c_str());
+            bool good = car.empty() ? got == NULLPTR : false;
+            for (int id : car) if (got == c.pl[id]) good = true;          // several carriers: any of them
+            V_CHECK(good, "C17:getPluginByName-differs", "getPluginByName(\"%s\") on %s (%zu installed plugins carry that name) returned %s", name.c_str(), render_chain(c.chain).c_str(), car.size(),
+                    got == NULLPTR ? "nothing" : got == NullTestPlugin::instance() ? "the null plugin" : "a plugin that is not installed under that name");
             continue;
         }
         if (kind == 7 || kind == 8) {   // enable / disable (installed or not)
@@ -331,10 +393,25 @@ int run_b(Reader& r, bool& nontrivial, std::string& desc) {
             V_CHECK(c.pl[k]->isEnabled() == en, "C17:isEnabled-differs", "isEnabled() of P%d is %d after %s()", k, (int)c.pl[k]->isEnabled(), en ? "enable" : "disable");
             continue;
         }
-        if (kind == 9 && r.below(4) == 0) {
+        uint32_t sub = kind == 9 ? r.below(4) : 9;
+        if (kind == 9 && sub == 0) {
             verif::cls("b:resetPlugins");
             c.reg.resetPlugins(); c.chain.clear(); desc += "reset ";
             if (int e = c.check_chain("resetPlugins")) return e;
+            continue;
+        }
+        if (kind == 9 && sub == 1) {   // a "-p..." option offered to the chain: asked newest first (enabled or not) until one accepts
+            verif::cls("b:parseAllArguments");
+            bool nobody = r.below(4) == 0;
+            std::string opt = "-p" + (nobody ? std::string("nobody") : c.names[(size_t)k]);
+            const char* av[3] = {"prog", "-v", opt.c_str()};
+            c.log.clear();
+            bool got = r.flag() ? c.reg.getFirstPlugin()->parseAllArguments(3, av, 2) : c.reg.getFirstPlugin()->parseAllArguments(3, const_cast<char**>(av), 2);
+            std::vector<LogEntry> want; bool accepted = false;
+            for (int id : c.chain) { want.push_back(LogEntry{'A', id}); if (!nobody && c.names[(size_t)id] == c.names[(size_t)k]) { accepted = true; break; } }
+            desc += sfmt("parse(%s) ", opt.c_str());
+            V_CHECK(got == accepted && render_log(c.log) == render_log(want), "C17:parseAllArguments-differs", "option %s offered to %s: plugins asked \"%s\" -> %d, expected \"%s\" -> %d", opt.c_str(), render_chain(c.chain).c_str(),
+                    render_log(c.log).c_str(), (int)got, render_log(want).c_str(), (int)accepted);
             continue;
         }
         {   // run one test through the chain
@@ -416,13 +493,10 @@ struct Mid {
     int cur = -1;
     bool bad = false; std::string badsig, badmsg, trace;
     int changes_before_last = 0;
-    Mid() { static const char* names[NP] = {"P0", "P1", "P2", "P3", "P4", "P5", "P6"}; for (int i = 0; i < NP; i++) { pl[i] = new MidPlugin(i, names[i]); enabled[i] = true; } g_mid = this; }
-    ~Mid() { for (int i = 0; i < NP; i++) delete pl[i]; g_mid = NULLPTR; }
-    int pos_of(int k) const { for (size_t i = 0; i < chain.size(); i++) if (chain[i] == k) return (int)i; return -1; }
-    void fail(const char* sig, const std::string& msg) { if (!bad) { bad = true; badsig = sig; badmsg = msg; } }
-    void touch(int k) { if (cur >= 0 && rec[(size_t)cur].in_test) rec[(size_t)cur].touched[k] = true; }
-    void check_chain(const char* after) {
-        std::vector<int> a; bool ok = true;
+    std::vector<std::string> names;
+    explicit Mid(const std::vector<std::string>& n) : names(n) { for (int i = 0; i < NP; i++) { pl[i] = new MidPlugin(i, names[(size_t)i].c_str()); enabled[i] = true; } g_mid = this; }
+    std::vector<int> current_chain(bool& ok) {
+        std::vector<int> a; ok = true;
         TestPlugin* p = reg.getFirstPlugin();
         for (int steps = 0; ; steps++) {
             if (p == NullTestPlugin::instance()) break;
@@ -430,6 +504,14 @@ struct Mid {
             if (p == NULLPTR || id < 0 || steps > 2 * NP) { ok = false; break; }
             a.push_back(id); p = p->getNext();
         }
+        return a;
+    }
+    ~Mid() { for (int i = 0; i < NP; i++) delete pl[i]; g_mid = NULLPTR; }
+    int pos_of(int k) const { for (size_t i = 0; i < chain.size(); i++) if (chain[i] == k) return (int)i; return -1; }
+    void fail(const char* sig, const std::string& msg) { if (!bad) { bad = true; badsig = sig; badmsg = msg; } }
+    void touch(int k) { if (cur >= 0 && rec[(size_t)cur].in_test) rec[(size_t)cur].touched[k] = true; }
+    void check_chain(const char* after) {
+        bool ok; std::vector<int> a = current_chain(ok);
         if (!ok || a != chain) fail("C17:plugin-chain-differs", sfmt("after %s (during a run) the registry holds %s, expected %s", after, render_chain(a).c_str(), render_chain(chain).c_str()));
     }
     // apply one change to the real registry and to the model; `self` = plugin whose action is executing (-1 in a test phase)
@@ -444,12 +526,26 @@ struct Mid {
             trace += sfmt("%s:+P%d ", where, k); verif::cls("c:install-during-run"); break; }
         case C_REMOVE: case C_REMOVE_NOBODY: {
             if (op.kind == C_REMOVE && pos_of(k) < 0 && !chain.empty() && op.alt % 4 != 0) k = chain[(size_t)op.alt % chain.size()];   // mostly an installed one
-            if (op.kind == C_REMOVE && k == self) return;
-            int pos = op.kind == C_REMOVE ? pos_of(k) : -1;
-            reg.removePluginByName(op.kind == C_REMOVE ? pl[k]->getName().asCharString() : "nobody");
-            if (pos >= 0) { chain.erase(chain.begin() + pos); touch(k); }
-            trace += op.kind == C_REMOVE ? sfmt("%s:-P%d@%d ", where, k, pos) : sfmt("%s:-nobody ", where);
-            verif::cls(pos < 0 ? "c:remove-not-installed-during-run" : pos == 0 ? "c:remove-newest-during-run" : pos + 1 == (int)chain.size() + 1 ? "c:remove-oldest-during-run" : "c:remove-middle-during-run"); break; }
+            std::string name = op.kind == C_REMOVE ? names[(size_t)k] : std::string("nobody");
+            std::vector<int> car; for (int id : chain) if (names[(size_t)id] == name) car.push_back(id);
+            if (self >= 0 && names[(size_t)self] == name) return;        // never the plugin whose action is executing
+            if (car.size() >= 2 && verif::known(KEY_SEVERAL)) return;
+            std::vector<int> old = chain;
+            reg.removePluginByName(name.c_str());
+            int pos = -1;
+            if (!car.empty()) {
+                bool ok; std::vector<int> a = current_chain(ok);
+                int gone = ok ? one_carrier_left(old, a, names, name) : -1;        // several carriers: any ONE of them may leave
+                if (gone < 0) {
+                    fail(ok && car.size() >= 2 && a.size() + 1 < old.size() ? KEY_SEVERAL : "C17:removePluginByName-wrong-chain",
+                         sfmt("removePluginByName(\"%s\") during a run on %s (%zu carriers of the name) left %s; exactly one plugin named so must leave", name.c_str(), render_chain(old).c_str(), car.size(), render_chain(a).c_str()));
+                    return;
+                }
+                pos = 0; while (old[(size_t)pos] != gone) pos++;
+                chain = a; touch(gone);
+            }
+            trace += sfmt("%s:-%s@%d ", where, name.c_str(), pos);
+            verif::cls(car.size() >= 2 ? "c:remove-name-with-several-carriers-during-run" : pos < 0 ? "c:remove-not-installed-during-run" : pos == 0 ? "c:remove-newest-during-run" : pos == (int)chain.size() ? "c:remove-oldest-during-run" : "c:remove-middle-during-run"); break; }
         case C_ENABLE: case C_DISABLE: {
             if (k == self) return;
             bool en = op.kind == C_ENABLE;
@@ -511,8 +607,8 @@ COp gen_cop(Reader& r, std::string& desc) {
 }
 std::string render_ids(const std::vector<int>& v) { std::string s; for (int id : v) s += sfmt("P%d ", id); return s.empty() ? "(none)" : s; }
 
-int run_c(Reader& r, bool& nontrivial, std::string& desc) {
-    Mid m;
+int run_c(Reader& r, bool& nontrivial, std::string& desc, bool dup) {
+    Mid m(gen_names(r, dup, desc));
     UtestShell::setRethrowExceptions(false);
     int n0 = (int)r.below(5);
     desc += "before the run: ";
@@ -574,6 +670,119 @@ int run_c(Reader& r, bool& nontrivial, std::string& desc) {
     return 0;
 }
 
+
+// =================================================================================================================
+// part (d): the same through CommandLineTestRunner::runAllTestsMain — the runner installs its own "SetPointerPlugin" on top of
+// the user's plugins, offers every "-p..." option to the chain (TestPlugin::parseAllArguments), runs the tests and removes its
+// plugin by name.  Reference: options are offered newest plugin first until one accepts, an option nobody accepts means no
+// test runs; every test's redirections are restored; the user's plugins see every test in the stated order; afterwards the
+// registry holds exactly the user's plugins again (the runner removes exactly the plugin it installed).
+struct SinkOutput : TestOutput {
+    std::string* sink;
+    explicit SinkOutput(std::string* s) : sink(s) {}
+    void printBuffer(const char* t) CPPUTEST_OVERRIDE { *sink += t; }
+    void flush() CPPUTEST_OVERRIDE {}
+};
+class SinkRunner : public CommandLineTestRunner {
+public:
+    std::string* sink;
+    SinkRunner(int ac, const char* const* av, TestRegistry* reg, std::string* s) : CommandLineTestRunner(ac, av, reg), sink(s) {}
+protected:
+    TestOutput* createConsoleOutput() CPPUTEST_OVERRIDE { return new SinkOutput(sink); }
+};
+
+int run_d(Reader& r, bool& nontrivial, std::string& desc) {
+    bool dup = r.flag();
+    Chains c(gen_names(r, dup, desc));
+    for (int i = 0; i < NT; i++) g_target[i] = base_val(i);
+    Observer obs;
+    // the user's plugins (0..3 recording plugins), then the observer
+    int nuser = (int)r.below(4);
+    for (int i = 0; i < nuser; i++) {
+        int k = (int)r.below(NP); int tries = 0; while (c.pos_of(k) >= 0 && tries < NP) { k = (k + 1) % NP; tries++; }
+        if (verif::known(KEY_SEVERAL) && c.names[(size_t)k] == DEF_PLUGIN_SET_POINTER) { verif::cls("d:user-plugin-skipped-known-finding"); continue; }
+        c.reg.installPlugin(c.pl[k]); c.chain.insert(c.chain.begin(), k); desc += sfmt("+P%d(%s) ", k, c.names[(size_t)k].c_str());
+        if (r.below(4) == 0) { c.pl[k]->disable(); c.enabled[k] = false; desc += "disabled "; }
+    }
+    c.reg.installPlugin(&obs);
+    int ntests = 1 + (int)r.below(3);
+    bool opt_e = r.flag();
+    std::vector<TestScript> scripts((size_t)ntests);
+    int last_target = 0;
+    for (int t = 0; t < ntests; t++) {
+        desc += sfmt("T%d{", t);
+        for (int p = 0; p < 3; p++) {
+            desc += sfmt("%s: ", phase_name(p)); Phase& ph = scripts[(size_t)t].ph[p]; ph = gen_phase(r, desc, last_target);
+            if (!opt_e && ph.outcome >= O_THROW_INT) ph.outcome = O_FAIL;      // without -e the runner lets exceptions escape: not in the domain
+        }
+        desc += "} ";
+    }
+    std::vector<std::string> args; args.push_back("prog"); if (opt_e) args.push_back("-e");
+    int nopt = (int)r.below(3);
+    std::vector<int> opt_plugin;       // for each -p option: a plugin id whose name it carries, or -1 for a name nobody accepts
+    for (int i = 0; i < nopt; i++) {
+        int k = (int)r.below(NP + 1);
+        if (k < NP && !c.chain.empty() && c.pos_of(k) < 0 && r.flag()) k = c.chain[(size_t)k % c.chain.size()];
+        opt_plugin.push_back(k < NP ? k : -1);
+        args.push_back(k < NP ? "-p" + c.names[(size_t)k] : std::string("-pnobody"));
+    }
+    desc += "args:"; for (auto& a : args) desc += " " + a; desc += " ";
+    if (verif::g_explain) fprintf(stderr, "part d: %s\n", desc.c_str());
+    std::vector<const char*> av; for (auto& a : args) av.push_back(a.c_str());
+    std::vector<ScriptShell> shells((size_t)ntests);
+    for (int t = ntests - 1; t >= 0; t--) { shells[(size_t)t].s_ = &scripts[(size_t)t]; c.reg.addTest(&shells[(size_t)t]); }
+
+    std::string text; int result;
+    c.log.clear();
+    {
+        SinkRunner runner((int)av.size(), av.data(), &c.reg, &text);
+        result = runner.runAllTestsMain();
+    }
+    UtestShell::setRethrowExceptions(false);
+    UtestShell::resetCrashMethod();
+
+    // ---- model: options
+    std::vector<LogEntry> want; bool all_accepted = true;
+    for (int k : opt_plugin) {
+        bool accepted = false;
+        for (int id : c.chain) { want.push_back(LogEntry{'A', id}); if (k >= 0 && c.names[(size_t)id] == c.names[(size_t)k]) { accepted = true; break; } }
+        if (!accepted) { all_accepted = false; break; }
+    }
+    verif::cls(nopt == 0 ? "d:no-plugin-option" : all_accepted ? "d:plugin-options-accepted" : "d:plugin-option-rejected");
+    if (all_accepted) for (int t = 0; t < ntests; t++) {
+        for (size_t i = 0; i < c.chain.size(); i++) if (c.enabled[c.chain[i]]) want.push_back(LogEntry{'<', c.chain[i]});
+        for (size_t i = c.chain.size(); i-- > 0;) if (c.enabled[c.chain[i]]) want.push_back(LogEntry{'>', c.chain[i]});
+    }
+    std::string got_s = render_log(c.log), want_s = render_log(want);
+    V_CHECK(got_s == want_s, "C17:runner-plugin-actions", "runner with user chain %s: plugins saw \"%s\", expected \"%s\" (A = asked about an option, < pre, > post)", render_chain(c.chain).c_str(), got_s.c_str(), want_s.c_str());
+    // ---- afterwards the registry holds the observer and the user's plugins, nothing else
+    {
+        std::vector<int> a; bool ok = false;
+        TestPlugin* first = c.reg.getFirstPlugin();
+        if (first == &obs) { c.reg.resetPlugins(); TestPlugin* p = obs.getNext();      // walk behind the observer with the bounded walker
+            std::vector<TestPlugin*> chainp; ok = true;
+            for (int steps = 0; p != NullTestPlugin::instance(); steps++) { int id = -1; for (int i = 0; i < NP; i++) if (p == c.pl[i]) id = i; if (id < 0 || steps > NP) { ok = false; break; } a.push_back(id); p = p->getNext(); } }
+        if (!(ok && a == c.chain)) {
+            bool shared = false; for (int id : c.chain) if (c.names[(size_t)id] == DEF_PLUGIN_SET_POINTER) shared = true;
+            return verif::fail(shared && first == &obs && ok ? KEY_SEVERAL : "C17:runner-changed-user-plugins",
+                               "after runAllTestsMain the registry %s %s; the user had installed the observer and %s%s", first == &obs ? "holds the observer and" : "does not start with the user's newest plugin;", ok ? render_chain(a).c_str() : "(unknown plugin in the chain)",
+                               render_chain(c.chain).c_str(), shared ? " (one of them is named like the runner's own SetPointerPlugin)" : "");
+        }
+    }
+    if (!all_accepted) {
+        V_CHECK(obs.pre.empty() && obs.post.empty() && result != 0, "C17:runner-ran-despite-rejected-option", "an option no plugin accepts: %zu tests started, runAllTestsMain returned %d", obs.pre.size(), result);
+        for (int i = 0; i < NT; i++) V_CHECK(g_target[i] == base_val(i), "C17:target-changed-after-run", "target %d changed although no test ran", i);
+        return 0;
+    }
+    V_CHECK(obs.pre.size() == (size_t)ntests && obs.post.size() == (size_t)ntests, "C17:observer-not-called", "observer saw %zu pre / %zu post actions for %d tests run by the runner", obs.pre.size(), obs.post.size(), ntests);
+    size_t final_failures = obs.post.back().failures;      // the runner's SetPointerPlugin never fails a test in its post action
+    int e = judge_targets(scripts, obs, 0, final_failures, text, nontrivial);
+    if (e) return e;
+    V_CHECK((result == 0) == (final_failures == 0), "C17:runner-result", "runAllTestsMain returned %d with %zu failures", result, final_failures);
+    if (nopt) nontrivial = true;
+    return 0;
+}
+
 }  // namespace
 
 extern "C" const char* verif_property(void) { return "C17"; }
@@ -582,16 +791,28 @@ extern "C" int verif_case(const uint8_t* data, size_t size) {
     Reader r(data, size);
     bool nontrivial = false; std::string desc;
     int rc;
-    static const char part_of[8] = {'a', 'b', 'c', 'b', 'a', 'c', 'c', 'a'};   // 0, 1, 3 keep the meaning they have in the corpus
-    char part = part_of[r.below(8)];
-    if (part == 'a') { verif::cls("part:a-set-pointer"); desc = "a: "; rc = run_a(r, nontrivial, desc); }
-    else if (part == 'b') { verif::cls("part:b-chains"); desc = "b: "; rc = run_b(r, nontrivial, desc); }
-    else { verif::cls("part:c-chain-changes-during-a-run"); desc = "c: "; rc = run_c(r, nontrivial, desc); }
+    static const char part_of[8] = {'a', 'b', 'c', 'b', 'a', 'c', 'b', 'd'};   // 0..3 keep the meaning they have in the corpus
+    uint32_t sel = r.below(8);
+    char part = part_of[sel];
+    bool dup = sel >= 4;                        // 4..6: different plugin objects may share a name
+    if (dup) verif::cls("names:shared");
+    if (part == 'a') { verif::cls("part:a-set-pointer"); desc = "a: "; rc = run_a(r, nontrivial, desc, dup); }
+    else if (part == 'b') { verif::cls("part:b-chains"); desc = "b: "; rc = run_b(r, nontrivial, desc, dup); }
+    else if (part == 'c') { verif::cls("part:c-chain-changes-during-a-run"); desc = "c: "; rc = run_c(r, nontrivial, desc, dup); }
+    else { verif::cls("part:d-command-line-runner"); desc = "d: "; rc = run_d(r, nontrivial, desc); }
     if (verif::g_explain) fprintf(stderr, "case: %s\n", desc.c_str());
     verif::note_case(nontrivial, r.h, [&] { return desc.substr(0, 600); });
     return rc;
 }
 extern "C" int verif_known_repro(const char* key) {
+    if (std::string(key) == KEY_SEVERAL) {
+        // two different plugin objects named "Logger" (A older, B newer) and a third plugin: removing "Logger" must take out exactly one
+        TestRegistry reg;
+        RecPlugin a(0, "Logger"), x(1, "Other"), b(2, "Logger");
+        reg.installPlugin(&a); reg.installPlugin(&x); reg.installPlugin(&b);
+        reg.removePluginByName("Logger");
+        return reg.countPlugins() < 2 ? 1 : 0;
+    }
     if (std::string(key) != KEY_REMOVE) return -1;
     // chain A,B,C,D (installed in that order: D is first), remove "B" = third position
     TestRegistry reg;
